@@ -108,6 +108,19 @@ pub fn check_print(rep: &mut Report, w: &[u32], seed: u64) -> bool {
 }
 
 
+/// does the text contain \u{ddddd} with five hex digits and a value above 0x2FFFF? SMT-LIB 2.6 restricts the first
+/// of five digits to 0-2, so this is NOT an escape (the property says so too); cvc5 1.0 nevertheless decodes it
+/// to a code point beyond the alphabet, so such texts are kept out of the cvc5 cross-check (DESIGN.md 13)
+fn out_of_range_brace(t: &[char]) -> bool {
+    let n = t.len();
+    for i in 0..n {
+        if i + 9 <= n && t[i] == '\\' && t[i + 1] == 'u' && t[i + 2] == '{' && t[i + 8] == '}' && t[i + 3..i + 8].iter().all(|c| c.is_ascii_hexdigit()) && t[i + 3].to_digit(16).unwrap() > 2 {
+            return true;
+        }
+    }
+    false
+}
+
 /// escape attempts, well-formed and malformed, as text fragments
 pub fn escape_fragments() -> (Vec<String>, Vec<String>) {
     let hex = ["0", "2", "3", "a", "F", "9"];
@@ -222,7 +235,20 @@ pub fn run(p: &Params, rep: &mut Report) {
                 continue;
             }
             let t: Vec<char> = format!("{}{}", a, b).chars().collect();
-            check_parse(rep, &t, seed);
+            if check_parse(rep, &t, seed) && rep.xchecks.len() < 60 && structured % 7 == 0 && !t.contains(&'"') && !out_of_range_brace(&t) {
+                // how does an SMT solver read this literal?  "<text>" = str.++ of the code points we expect
+                let text: String = t.iter().collect();
+                let want = o::parse_literal(&t);
+                rep.xcheck(|| {
+                    let parts: Vec<String> = want.iter().map(|c| format!("(str.from_code {})", c)).collect();
+                    let rhs = match parts.len() {
+                        0 => "\"\"".to_string(),
+                        1 => parts[0].clone(),
+                        _ => format!("(str.++ {})", parts.join(" ")),
+                    };
+                    format!("(= \"{}\" {})", text, rhs)
+                });
+            }
             rep.distinct_key(&escape_case(&t));
             structured += 1;
             // a third fragment from the well-formed ones, and a plain separator variant
